@@ -77,6 +77,7 @@ type pathState struct {
 	model    map[string]uint64
 	memo     map[int]uint64
 	lit      map[int]bool
+	concrete map[int]uint64  // terms concretised on this path
 	dom      map[int]*domain // exact value sets of 8-bit/Bool variables under the single-variable constraints
 	ent      map[int]bool    // variables that occur in an asserted multi-variable constraint
 	synced   int             // pc[:synced] has been sent to the solver
@@ -330,6 +331,7 @@ func (i *interpreter) runPath(it workItem) {
 		model:    it.model,
 		memo:     map[int]uint64{},
 		lit:      map[int]bool{},
+		concrete: map[int]uint64{},
 		dom:      map[int]*domain{},
 		ent:      map[int]bool{},
 		maxSteps: e.Opts.MaxSteps,
@@ -587,6 +589,12 @@ func (i *interpreter) concretize(t *Term) uint64 {
 		return t.val
 	}
 	p := i.path
+	// a term concretised earlier on this path keeps its value (this shortcut
+	// depends only on the path history, never on the model, so that replays
+	// of a prefix make the same sequence of decisions)
+	if v, ok := p.concrete[t.id]; ok {
+		return v
+	}
 	for {
 		p.decided++
 		if p.pos < len(p.prefix) {
@@ -605,15 +613,13 @@ func (i *interpreter) concretize(t *Term) uint64 {
 				i.assertLit(c, d.Val, d.Forced)
 			}
 			if d.Val {
+				p.concrete[t.id] = d.V
 				return d.V
 			}
 			continue
 		}
 		v := t.Eval(p.model, p.memo)
 		c := i.tb.Eq(t, i.tb.BV(t.w, v))
-		if known, ok := p.lit[c.id]; ok && known {
-			return v
-		}
 		res, m2 := i.feasible(i.tb.Not(c), "concretisation")
 		forced := res == Unsat
 		if !forced {
@@ -621,6 +627,7 @@ func (i *interpreter) concretize(t *Term) uint64 {
 		}
 		p.trace = append(p.trace, Decision{Kind: dValue, V: v, Val: true, Forced: forced})
 		i.assertLit(c, true, forced)
+		p.concrete[t.id] = v
 		return v
 	}
 }
